@@ -351,6 +351,13 @@ func genChunked(r *rng, nfiles int, maxCorpus int, perFile int) CaseSet {
 func genChains(r *rng, n int, maxCorpus int) CaseSet {
 	cs := CaseSet{Name: "chains"}
 	files := validFiles(r, 40, maxCorpus)
+	// files whose records use the time reference before (or without) setting it, and files of
+	// component-bearing records: what a file of a chain inherits from the one before it shows there
+	for _, c := range genTimestamps(r, 16).Cases {
+		if dc, ok := parseDecCase(c); ok && len(dc.data) < 3000 {
+			files = append(files, dc.data)
+		}
+	}
 	for i := 0; i < n; i++ {
 		k := 1 + r.intn(4)
 		var data []byte
